@@ -765,3 +765,32 @@ def lazy_predicates(ctx: Ctx, rule: str) -> None:
         and f"{wn}.net.long_suffix in self.incompatible_workers" in src and f"if self.setless_form in node.id:\n            if {wn} and {wn}.id in node.id:\n                return True" in src
     ctx.record(rule + "u", "TABLE", fref2, "is_unrolled: root -> True; composite -> RuntimeError; incompatible worker -> True; a child of the same set-invariant name for this worker -> True; else False",
                ok2, {"rows": sorted(rows)}, "" if ok2 else "the test whether a flat node is already expanded for a worker changed")
+
+
+# ---------------------------------------------------------------------- node objects
+def node_objects(ctx: Ctx, rule: str) -> None:
+    """A node's objects: its net, the net's vms, their images, plus images only this test declares for a vm."""
+    fref = f"{N_}.set_objects_from_net"
+    fn = ctx.repo.func(fref)
+    ctx.touch(fref)
+    netp = fn.params()[1]
+    first = [s for s in fn.node.body if isinstance(s, ast.Assign) and ast.unparse(s.targets[0]) == "self.objects"]
+    loops = [l for l in fn.node.body if isinstance(l, ast.For)]
+    ok = len(first) == 1 and ast.unparse(first[0].value) == f"[{netp}]" and len(loops) == 1 and ast.unparse(loops[0].iter) == f"{netp}.components"
+    detail = {}
+    if ok:
+        l = loops[0]
+        o = l.target.id
+        adds = [ast.unparse(s) for s in l.body if isinstance(s, ast.AugAssign) and ast.unparse(s.target) == "self.objects"]
+        ok = adds == [f"self.objects += [{o}]", f"self.objects += {o}.components"]
+        inner = [x for x in l.body if isinstance(x, ast.For)]
+        vm = [s for s in l.body if isinstance(s, ast.Assign) and ast.unparse(s.targets[0]) == "vm_name"]
+        ok = ok and len(inner) == 1 and len(vm) == 1 and ast.unparse(vm[0].value) == f"{o}.suffix"
+        if ok:
+            detail["extra_images_from"] = ast.unparse(inner[0].iter)
+            ok = ast.unparse(inner[0].iter) == "self.params.object_params(vm_name).objects('images')"
+            guard = [i for i in inner[0].body if isinstance(i, ast.If)]
+            ok = ok and len(guard) == 1 and ast.unparse(guard[0].test) == f"{inner[0].target.id} not in parsed_images" \
+                and any(ast.unparse(x) == "self.objects += [image]" for x in guard[0].body)
+    ctx.record(rule, "PROV", fref, "objects = [net] + each vm + its parsed images + every image the node's own vm-specific parameters declare beyond those", ok, detail,
+               "" if ok else "images that only this test declares for a vm are no longer taken from the test's own parameters: their dependencies would never be followed")
